@@ -441,6 +441,8 @@ namespace Givaro {
         {
             // == ld X^ (degRem-degQ)
             _domain.assign(Q[degQuo], R[degRem]);
+            for (j=degQuo+1; j<(long)Q.size(); j++)
+                _domain.mulin (Q[j], lB);
 
             // rem <- lB*rem - lQ*x^(degRem-degB)*B
             for (j=0; j<degQuo; j++)
